@@ -28,7 +28,9 @@ RULE = ("program = set of 2..K concurrently running roles (TLC-enumerated, compl
 KINDS = ["nackgen", "nackresp", "rrecv", "rsend", "twccsend", "twcchdr", "rfc8888", "rtpfb", "stats", "pdrecv", "pdsend", "pli",
          "flexfec", "cc", "ccleaky", "jitter", "pacing"]
 CHAINS = [["nackgen", "nackresp", "rrecv", "rsend", "stats"], ["twcchdr", "twccsend", "rtpfb", "cc"],
-          ["rfc8888", "pli", "flexfec", "pdsend", "pdrecv", "stats"]]
+          ["rfc8888", "pli", "flexfec", "pdsend", "pdrecv", "stats"],
+          # members that inject RTP (retransmissions, FEC) in front of a member that rewrites the header it is given
+          ["nackresp", "flexfec", "twcchdr"], ["twcchdr", "flexfec", "nackresp"]]
 
 
 def role_step(rng, role, rep, fb="mixed"):
@@ -67,6 +69,8 @@ def script(rng, kinds, roles, rep):
     members = [{"k": k, "o": {"ivl": 1, "size": 64, "k": 2, "n": 1, "rate": 50_000_000}} for k in kinds]
     twcc = 7 if ("twcchdr" in kinds or not ({"cc", "ccleaky", "ccslow"} & set(kinds))) else 0
     fb = rng.choice(["ccfb", "twccfb", "ccfb", "twccfb", "mixed"])     # both RTCP read loops deliver the same kind of feedback in 2 of 3 scripts
+    if "nackresp" in kinds and len(kinds) == 3:
+        fb = "nack"
     steps = [{"a": "bindw"}, {"a": "bindr"},
              {"a": "bindl", "s": 1, "nack": True, "twcc": twcc, "rtx": rng.random() < 0.5, "fec": True},
              {"a": "bindl", "s": 3, "nack": True, "twcc": twcc, "rtx": False, "fec": False},
